@@ -39,6 +39,7 @@ type RunSpec struct {
 	NoCosim       bool              `json:"no_cosim"`
 	PruneIf       bool              `json:"prune_branches"`
 	ExecBudgetS   int               `json:"exec_budget_s"`
+	Shares        bool              `json:"share_abstraction"`
 	ExpectSat     []string          `json:"expect_sat"` // obligation ids that are informational witnesses
 	Informational []string          `json:"informational"`
 }
@@ -65,7 +66,8 @@ type StubSpec struct {
 	Func    string `json:"func"`
 	Input   string `json:"input"`
 	Kind    string `json:"kind"`
-	Returns string `json:"returns"` // "input" (default) or "zero"
+	Returns string `json:"returns"` // "input" (default), "zero" or "error"
+	Log     bool   `json:"log"`     // record each call as an event that the harness can count (vCalls)
 }
 
 type Finding struct {
@@ -429,6 +431,7 @@ func runInstance(ld *sym.Loaded, spec *Spec, rs *RunSpec, args []int64, known ma
 	}
 	e := sym.NewExec(ld.Prog, ld.Pkg, mode)
 	e.Known = known
+	e.S.ShareOn = rs.Shares
 	e.DecSegs = spec.DecSegs
 	e.PruneIf = spec.PruneIf || rs.PruneIf
 	budget := 300
@@ -444,6 +447,9 @@ func runInstance(ld *sym.Loaded, spec *Spec, rs *RunSpec, args []int64, known ma
 		e.SetUserStub(func(ex *sym.Exec, st *sym.State, fn *ssa.Function, args []sym.Val, where string) (sym.Val, bool) {
 			for _, sp := range stubsCopy {
 				if fn.Name() == sp.Func && (fn.Pkg == ex.Pkg || fn.Pkg == nil) {
+					if sp.Log {
+						ex.LogCall(st, fn, args)
+					}
 					if sp.Returns == "zero" {
 						return ex.ZeroResults(fn), true
 					}
